@@ -276,6 +276,10 @@ class Run(object):
         if focus == 'c03' and self.cons_from_start and finite:
             cb = self.cons(best)
             o.check(cb == best, 'c03:reported solution satisfies the constraints', best=best, cbest=cb, bestE=bestE, stopped=bool(msg), **ctx)
-            if cb == best and not (self.box is not None and not K.in_box(best, self.box)):
+            outside = self.box is not None and not K.in_box(best, self.box)
+            if cb == best and outside and self.box_from_start:
+                # ranges in force from the first iteration: the objective at a point outside them is infinite, so a finite energy cannot be that point's energy
+                o.check(False, 'c03:reported energy is the energy of the constrained point', best=best, observed=bestE, expected=float('inf'), outside_the_ranges=True, **ctx)
+            elif cb == best and not outside:
                 fb = self.F(best)
                 o.check(feq(bestE, fb, rel), 'c03:reported energy is the energy of the constrained point', best=best, observed=bestE, expected=fb, **ctx)
